@@ -112,7 +112,9 @@ type frame struct {
 	caller           *frame
 	fn               *ssa.Function
 	block, prevBlock *ssa.BasicBlock
-	env              map[ssa.Value]value // dynamic values of SSA variables
+	info             *fnInfo
+	regs             []value // dynamic values of SSA variables, indexed by info.index
+	defined          []bool
 	locals           []value
 	defers           *deferred
 	result           value
@@ -138,10 +140,61 @@ func (fr *frame) get(key ssa.Value) value {
 			return r
 		}
 	}
-	if r, ok := fr.env[key]; ok {
-		return r
+	if idx, ok := fr.info.index[key]; ok {
+		if r := fr.regs[idx]; r != nil || fr.defined[idx] {
+			return r
+		}
 	}
 	panic(fmt.Sprintf("get: no value for %T: %v", key, key.Name()))
+}
+
+// fnInfo numbers the SSA values a function defines (built once per function).
+type fnInfo struct {
+	index map[ssa.Value]int
+	n     int
+}
+
+var fnInfos = map[*ssa.Function]*fnInfo{}
+
+func infoOf(fn *ssa.Function) *fnInfo {
+	if in, ok := fnInfos[fn]; ok {
+		return in
+	}
+	in := &fnInfo{index: map[ssa.Value]int{}}
+	add := func(v ssa.Value) {
+		if _, ok := in.index[v]; !ok {
+			in.index[v] = in.n
+			in.n++
+		}
+	}
+	for _, p := range fn.Params {
+		add(p)
+	}
+	for _, fv := range fn.FreeVars {
+		add(fv)
+	}
+	for _, l := range fn.Locals {
+		add(l)
+	}
+	for _, b := range fn.Blocks {
+		for _, instr := range b.Instrs {
+			if v, ok := instr.(ssa.Value); ok {
+				add(v)
+			}
+		}
+	}
+	fnInfos[fn] = in
+	return in
+}
+
+func (fr *frame) set(key ssa.Value, v value) {
+	idx := fr.info.index[key]
+	fr.regs[idx] = v
+	fr.defined[idx] = true
+}
+
+func (fr *frame) reg(key ssa.Value) value {
+	return fr.regs[fr.info.index[key]]
 }
 
 // runDefer runs a deferred call d.
@@ -218,35 +271,35 @@ func visitInstr(fr *frame, instr ssa.Instruction) continuation {
 		// no-op
 
 	case *ssa.UnOp:
-		fr.env[instr] = unop(instr, fr.get(instr.X))
+		fr.set(instr, unop(instr, fr.get(instr.X)))
 
 	case *ssa.BinOp:
-		fr.env[instr] = binop(instr.Op, instr.X.Type(), fr.get(instr.X), fr.get(instr.Y))
+		fr.set(instr, binop(instr.Op, instr.X.Type(), fr.get(instr.X), fr.get(instr.Y)))
 
 	case *ssa.Call:
 		fn, args := prepareCall(fr, &instr.Call)
-		fr.env[instr] = call(fr.i, fr, instr.Pos(), fn, args)
+		fr.set(instr, call(fr.i, fr, instr.Pos(), fn, args))
 
 	case *ssa.ChangeInterface:
-		fr.env[instr] = fr.get(instr.X)
+		fr.set(instr, fr.get(instr.X))
 
 	case *ssa.ChangeType:
-		fr.env[instr] = fr.get(instr.X) // (can't fail)
+		fr.set(instr, fr.get(instr.X)) // (can't fail)
 
 	case *ssa.Convert:
-		fr.env[instr] = conv(instr.Type(), instr.X.Type(), fr.get(instr.X))
+		fr.set(instr, conv(instr.Type(), instr.X.Type(), fr.get(instr.X)))
 
 	case *ssa.SliceToArrayPointer:
-		fr.env[instr] = sliceToArrayPointer(instr.Type(), instr.X.Type(), fr.get(instr.X))
+		fr.set(instr, sliceToArrayPointer(instr.Type(), instr.X.Type(), fr.get(instr.X)))
 
 	case *ssa.MakeInterface:
-		fr.env[instr] = iface{t: instr.X.Type(), v: fr.get(instr.X)}
+		fr.set(instr, iface{t: instr.X.Type(), v: fr.get(instr.X)})
 
 	case *ssa.Extract:
-		fr.env[instr] = fr.get(instr.Tuple).(tuple)[instr.Index]
+		fr.set(instr, fr.get(instr.Tuple).(tuple)[instr.Index])
 
 	case *ssa.Slice:
-		fr.env[instr] = slice(fr.get(instr.X), fr.get(instr.Low), fr.get(instr.High), fr.get(instr.Max))
+		fr.set(instr, slice(fr.get(instr.X), fr.get(instr.Low), fr.get(instr.High), fr.get(instr.Max)))
 
 	case *ssa.Return:
 		switch len(instr.Results) {
@@ -310,17 +363,17 @@ func visitInstr(fr *frame, instr ssa.Instruction) continuation {
 		spawnGoroutine(fr.i, instr.Pos(), fn, args)
 
 	case *ssa.MakeChan:
-		fr.env[instr] = newChan(int(asInt64(fr.get(instr.Size))))
+		fr.set(instr, newChan(int(asInt64(fr.get(instr.Size)))))
 
 	case *ssa.Alloc:
 		var addr *value
 		if instr.Heap {
 			// new
 			addr = new(value)
-			fr.env[instr] = addr
+			fr.set(instr, addr)
 		} else {
 			// local
-			addr = fr.env[instr].(*value)
+			addr = fr.reg(instr).(*value)
 		}
 		*addr = zero(mustDeref(instr.Type()))
 
@@ -337,7 +390,7 @@ func visitInstr(fr *frame, instr ssa.Instruction) continuation {
 		for i := range slice {
 			slice[i] = zero(tElt)
 		}
-		fr.env[instr] = slice[:lenv]
+		fr.set(instr, slice[:lenv])
 
 	case *ssa.MakeMap:
 		var reserve int64
@@ -348,30 +401,30 @@ func visitInstr(fr *frame, instr ssa.Instruction) continuation {
 			panic(fmt.Sprintf("ssa.MakeMap.Reserve value %d does not fit in int", reserve))
 		}
 		mt := instr.Type().Underlying().(*types.Map)
-		fr.env[instr] = makeMap(mt.Key(), mt.Elem(), reserve)
+		fr.set(instr, makeMap(mt.Key(), mt.Elem(), reserve))
 
 	case *ssa.Range:
-		fr.env[instr] = rangeIter(fr.get(instr.X), instr.X.Type())
+		fr.set(instr, rangeIter(fr.get(instr.X), instr.X.Type()))
 
 	case *ssa.Next:
-		fr.env[instr] = fr.get(instr.Iter).(iter).next()
+		fr.set(instr, fr.get(instr.Iter).(iter).next())
 
 	case *ssa.FieldAddr:
 		base := fr.get(instr.X).(*value)
 		if base == nil {
 			raise("invalid memory address or nil pointer dereference")
 		}
-		fr.env[instr] = &(*base).(structure)[instr.Field]
+		fr.set(instr, &(*base).(structure)[instr.Field])
 
 	case *ssa.Field:
-		fr.env[instr] = fr.get(instr.X).(structure)[instr.Field]
+		fr.set(instr, fr.get(instr.X).(structure)[instr.Field])
 
 	case *ssa.IndexAddr:
 		x := fr.get(instr.X)
 		idx := fr.get(instr.Index)
 		switch x := x.(type) {
 		case []value:
-			fr.env[instr] = &x[indexIn(idx, len(x))]
+			fr.set(instr, &x[indexIn(idx, len(x))])
 		case *value: // *array
 			if x == nil {
 				raise("invalid memory address or nil pointer dereference")
@@ -380,9 +433,9 @@ func visitInstr(fr *frame, instr ssa.Instruction) continuation {
 			if si, ok := idx.(sym); ok && isStdTable(instr.X) {
 				// constant lookup table of the standard library: fork per
 				// distinct element value, not per index
-				fr.env[instr] = &a[tableIndex(si, a)]
+				fr.set(instr, &a[tableIndex(si, a)])
 			} else {
-				fr.env[instr] = &a[indexIn(idx, len(a))]
+				fr.set(instr, &a[indexIn(idx, len(a))])
 			}
 		default:
 			panic(fmt.Sprintf("unexpected x type in IndexAddr: %T", x))
@@ -395,20 +448,20 @@ func visitInstr(fr *frame, instr ssa.Instruction) continuation {
 		switch x := x.(type) {
 		case array:
 			if si, ok := idx.(sym); ok {
-				fr.env[instr] = x[tableIndex(si, x)]
+				fr.set(instr, x[tableIndex(si, x)])
 			} else {
-				fr.env[instr] = x[indexIn(idx, len(x))]
+				fr.set(instr, x[indexIn(idx, len(x))])
 			}
 		case string:
-			fr.env[instr] = x[indexIn(idx, len(x))]
+			fr.set(instr, x[indexIn(idx, len(x))])
 		case symstr:
-			fr.env[instr] = x.b[indexIn(idx, len(x.b))]
+			fr.set(instr, x.b[indexIn(idx, len(x.b))])
 		default:
 			panic(fmt.Sprintf("unexpected x type in Index: %T", x))
 		}
 
 	case *ssa.Lookup:
-		fr.env[instr] = lookup(instr, fr.get(instr.X), fr.get(instr.Index))
+		fr.set(instr, lookup(instr, fr.get(instr.X), fr.get(instr.Index)))
 
 	case *ssa.MapUpdate:
 		m := fr.get(instr.Map)
@@ -422,20 +475,20 @@ func visitInstr(fr *frame, instr ssa.Instruction) continuation {
 		}
 
 	case *ssa.TypeAssert:
-		fr.env[instr] = typeAssert(fr.i, instr, fr.get(instr.X).(iface))
+		fr.set(instr, typeAssert(fr.i, instr, fr.get(instr.X).(iface)))
 
 	case *ssa.MakeClosure:
 		var bindings []value
 		for _, binding := range instr.Bindings {
 			bindings = append(bindings, fr.get(binding))
 		}
-		fr.env[instr] = &closure{instr.Fn.(*ssa.Function), bindings}
+		fr.set(instr, &closure{instr.Fn.(*ssa.Function), bindings})
 
 	case *ssa.Phi:
 		log.Fatal("unreachable") // phis are processed at block entry
 
 	case *ssa.Select:
-		fr.env[instr] = doSelect(fr, instr)
+		fr.set(instr, doSelect(fr, instr))
 
 	default:
 		panic(fmt.Sprintf("unexpected instruction: %T", instr))
@@ -536,6 +589,23 @@ func callSSA(i *interpreter, caller *frame, callpos token.Pos, fn *ssa.Function,
 			panic(pathEnd{"budget", "call depth 3000 exceeded (unbounded recursion) in " + fn.String()})
 		}
 	}
+	if P.watchCB != nil && !P.inWatch {
+		hit, known := P.watchHit[fn]
+		if !known {
+			name := fn.String()
+			for _, w := range P.watchNames {
+				if name == w {
+					hit = true
+				}
+			}
+			P.watchHit[fn] = hit
+		}
+		if hit {
+			P.inWatch = true
+			call(i, caller, callpos, P.watchCB, []value{fn.String()})
+			P.inWatch = false
+		}
+	}
 	fr.mkdb = isMkdbFn(fn)
 	if fr.mkdb && !P.funcs[fn] {
 		P.funcs[fn] = true
@@ -546,18 +616,20 @@ func callSSA(i *interpreter, caller *frame, callpos token.Pos, fn *ssa.Function,
 		panic("interp requires ssa.BuilderMode to include InstantiateGenerics to execute generics")
 	}
 
-	fr.env = make(map[ssa.Value]value)
+	fr.info = infoOf(fn)
+	fr.regs = make([]value, fr.info.n)
+	fr.defined = make([]bool, fr.info.n)
 	fr.block = fn.Blocks[0]
 	fr.locals = make([]value, len(fn.Locals))
 	for i, l := range fn.Locals {
 		fr.locals[i] = zero(mustDeref(l.Type()))
-		fr.env[l] = &fr.locals[i]
+		fr.set(l, &fr.locals[i])
 	}
 	for i, p := range fn.Params {
-		fr.env[p] = args[i]
+		fr.set(p, args[i])
 	}
 	for i, fv := range fn.FreeVars {
-		fr.env[fv] = env[i]
+		fr.set(fv, env[i])
 	}
 	for fr.block != nil {
 		runFrame(fr)
@@ -653,7 +725,7 @@ func executePhis(fr *frame) []ssa.Instruction {
 			fr.phitemps = append(fr.phitemps, fr.get(phi.Edges[predIndex]))
 		}
 		for i, phi := range phis {
-			fr.env[phi.(*ssa.Phi)] = fr.phitemps[i]
+			fr.set(phi.(*ssa.Phi), fr.phitemps[i])
 		}
 	}
 	return nonPhis
